@@ -543,6 +543,7 @@ func countFeatures(h *vh.H, ss *j5schema.SchemaSet) {
 				}
 			case *j5schema.EnumSchema:
 				h.Count("loop.feat.enum")
+				countEnumNameShapes(func(k string) { h.Count("loop." + k) }, t)
 				if len(t.InfoFields) > 0 {
 					h.Count("loop.feat.enum.info-fields")
 				}
